@@ -1,11 +1,12 @@
-/* C15, inductive obligations on the real compound.c (+ real termdet_local):
- *  MODE 0  compose + start-up: n members (n symbolic 2..20, across the realloc
- *          at 16) are composed with the real parsec_compose; the real start-up
+/* C15, inductive obligations on the real compound.c (+ real termdet_local); n = N is
+ * enumerated by spec.py (2,3,16,17,20: around the realloc at 16) — with a symbolic n
+ * the realloc/memcpy of a symbolically sized member array gave no verdict in 300 s.
+ *  part 0  compose + start-up: n members are composed with the real parsec_compose; the real start-up
  *          hook sets the compound's pending actions to n, installs the
  *          completion callback on every member and enqueues member 0 only.
- *  MODE 1  one completion step from ANY valid state: n symbolic, k = number of
+ *  part 1  one completion step from ANY valid state: k = number of
  *          members already completed (symbolic, 0..n-1), compound's pending
- *          actions = n-k, detector BUSY (the representation invariant; MODE 0
+ *          actions = n-k, detector BUSY (the representation invariant; part 0
  *          shows the start-up establishes it for k = 0, this step re-establishes
  *          it for k+1).  The real parsec_composed_taskpool_cb runs for member
  *          k: it enqueues member k+1 and nothing else, or, for the last member,
@@ -15,13 +16,18 @@
  * h.c); memory-safety checks are on (array accesses in bounds).
  */
 #include "vp_harness.h"
+#ifndef VP_NATIVE
+/* formatting is not under test: the compound's name is an opaque 8-byte buffer */
+#include <stdlib.h>
+int asprintf(char **p, const char *f, ...){ (void)f; *p = malloc(8); return 7; }
+#endif
 #include "parsec/compound.c"
 #include "parsec/mca/termdet/local/termdet_local_module.c"
 
-#ifndef MODE
-#define MODE 0
+#ifndef N
+#define N 4
 #endif
-#define NMAX 20
+#define NMAX N
 static parsec_context_t ctx;
 static parsec_taskpool_t member[NMAX];
 static int nadd; static parsec_taskpool_t *added; static parsec_context_t *added_ctx;
@@ -32,12 +38,11 @@ extern int vp_destroyed;
 
 int main(void)
 {
-    int n = IN_RANGE(2, NMAX);
-    parsec_taskpool_t *comp = NULL;
-    for(int i = 0; i < NMAX; i++) if(i < n) {
-        member[i].taskpool_id = 100 + i; member[i].taskpool_type = PARSEC_TASKPOOL_TYPE_PTG;
-        comp = parsec_compose(comp, &member[i]);
-    }
+    const int n = N;
+    for(int i = 0; i < NMAX; i++) { member[i].taskpool_id = 100 + i; member[i].taskpool_type = PARSEC_TASKPOOL_TYPE_PTG; }
+    /* the first two unconditionally (n >= 2), so that the object creation is explored once, on a concrete path */
+    parsec_taskpool_t *comp = parsec_compose(parsec_compose(NULL, &member[0]), &member[1]);
+    for(int i = 2; i < NMAX; i++) comp = parsec_compose(comp, &member[i]);
     VASSERTM(comp != NULL && comp != &member[0] && comp->taskpool_type == PARSEC_TASKPOOL_TYPE_COMPOUND, "compose returns a compound");
     parsec_compound_taskpool_t *c = (parsec_compound_taskpool_t*)comp;
     VASSERTM(c->nb_taskpools == n && c->completed_taskpools == 0, "compound holds the n members, none completed");
@@ -56,16 +61,12 @@ int main(void)
     for(int i = 0; i < NMAX; i++) if(i < n)
         VASSERTM(member[i].on_complete == parsec_composed_taskpool_cb && member[i].on_complete_data == c, "completion callback installed on every member");
     VASSERTM(term_cb == 0, "no termination at start-up");
-#if MODE == 0
-    if(n >= 17) VWITNESS("composition past the realloc at 16");
-    if(n == 16) VWITNESS("exactly 16 members");
-    if(n == 2) VWITNESS("two members");
-#else
     int k = IN_RANGE(0, NMAX - 1); VASSUME(k < n);
     c->completed_taskpools = k; comp->nb_pending_actions = n - k;      /* any valid state */
     nadd = 0; added = NULL;
     parsec_taskpool_t *done = c->taskpool_array[k];
-    done->on_complete(done, done->on_complete_data);                   /* member k terminated: its on_complete runs */
+    /* member k terminated: its on_complete (shown above to be parsec_composed_taskpool_cb with the compound as data) runs */
+    parsec_composed_taskpool_cb(done, c);
     VASSERTM(c->completed_taskpools == (uint32_t)(k + 1), "one more member completed");
     VASSERTM(comp->nb_pending_actions == n - k - 1, "one pending action of the compound released");
     if(k + 1 < n) {
@@ -76,9 +77,10 @@ int main(void)
         VASSERTM(term_cb == 1 && term_saw_pa == 0 && comp->tdm.monitor == PARSEC_TERMDET_LOCAL_TERMINATED, "compound reported terminated exactly once, after the last member");
     }
     VASSERTM(vp_destroyed == 0, "compound not destroyed while the user holds its reference");
-    if(k + 1 == n && n >= 17) VWITNESS("last member of a long chain");
-    if(k == 15 && n > 17) VWITNESS("step across the realloc boundary");
-    if(k == 0 && n == 2) VWITNESS("first of two");
+    if(k + 1 == n) VWITNESS("last member completes");
+    if(k == 0) VWITNESS("first member completes");
+#if N >= 3
+    if(k == n / 2 && k > 0 && k + 1 < n) VWITNESS("a middle member completes");
 #endif
     return 0;
 }
